@@ -119,6 +119,7 @@ class Tracker:
         self.c = c; self.exists = [False] * 4; self.on = [False] * 4
     def ok(self, toks):
         c = self.c; op = toks[0]; i = int(toks[1])
+        if c["ctx"] == 3 and (i != 0 or op in ("copy", "loadfrom")): return False      # no context object: the harness cannot tell instances apart, so there is only instance 0
         if op == "construct": return not self.exists[i]
         if op == "copy":
             # a reference/pointer context is shared with the original, so the harness could not tell the two apart
